@@ -1238,6 +1238,7 @@ func (e *Engine) recordViolation(st *State, sol *Solver, v *Violation) {
 		v.Events = append(v.Events, eventStr(ev))
 	}
 	v.Path = st.ID
+	v.Delays = st.Delays
 	v.Labels = append([]string(nil), st.Labels...)
 	e.mu.Lock()
 	e.Violations = append(e.Violations, v)
